@@ -499,6 +499,23 @@ def c18_body_case(content, ch, junk):
         return (refenc.body_frame(content, ch).hex()[:200], b.hex()[:200])
     # one body object, sent twice (on two channels), given as each byte container: same bytes both times, and the
     # object still reports its own content and length afterwards
+    if len(content) <= 5000:
+        # a body that wraps the caller's bytearray follows what the caller does to it: grown or shrunk in place after it was
+        # measured and sent once, it is measured and framed anew
+        buf_ = bytearray(content)
+        obj = body.ContentBody(buf_)
+        len(obj)
+        frame.marshal(obj, ch)
+        for edit in ('grow', 'shrink'):
+            if edit == 'grow':
+                buf_.extend(b'zz\xce')
+            else:
+                del buf_[:min(2, len(buf_))]
+            now = bytes(buf_)
+            k2_, b2_ = catching(frame.marshal, obj, ch)
+            if len(obj) != len(now) or k2_ != 'ok' or b2_ != refenc.body_frame(now, ch):
+                return ('after the caller\'s bytearray was %s in place: len %d and the frame of its %d octets' % ('grown' if edit == 'grow' else 'shrunk', len(now), len(now)),
+                        'len(body) %d, frame %s' % (len(obj), b2_.hex()[:60] if k2_ == 'ok' else repr(b2_)))
     for mk in (bytes, bytearray, lambda c: type('B', (bytes,), {})(c)):
         given = mk(content)
         obj = body.ContentBody(given)
@@ -1911,7 +1928,58 @@ def c11_scenario_case(steps):
     return c11_collect(c11_spawn(steps), steps)
 
 
+@replayer
+def c11_parked_thread_case(flag_at_entry):
+    """another thread is in the middle of encoding a table (parked inside its items()) when this thread sets the switch:
+    what THIS thread encodes follows the switch as it is now"""
+    class Parked(dict):
+        def __init__(self, *a, **kw):
+            super().__init__(*a, **kw)
+            self.entered = threading.Event()
+            self.release = threading.Event()
+
+        def items(self):
+            self.entered.set()
+            self.release.wait(10)
+            return super().items()
+    old = encode.DEPRECATED_RABBITMQ_SUPPORT
+    bad = None
+    try:
+        encode.support_deprecated_rabbitmq(flag_at_entry)
+        parked = Parked({'a': 40000, 'b': {'c': 3000000000}})
+        out = {}
+        th = threading.Thread(target=lambda: out.setdefault('r', catching(encode.field_table, parked)))
+        th.start()
+        if not parked.entered.wait(10):
+            parked.release.set()
+            th.join(10)
+            return None
+        for now in (not flag_at_entry, flag_at_entry, not flag_at_entry):
+            encode.support_deprecated_rabbitmq(now)
+            for n in (40000, 3000000000, 200, -40000):
+                e = first_fit(n, now)
+                got = [catching(encode.table_integer, n), catching(encode.encode_table_value, n), catching(encode.field_array, [n]),
+                       catching(encode.field_table, {'k': [{'n': n}]})]
+                want = [e, e, struct.pack('>I', len(e)) + e,
+                        struct.pack('>I', 14 + len(e)) + b'\x01kA' + struct.pack('>I', 7 + len(e)) + b'F' + struct.pack('>I', 2 + len(e)) + b'\x01n' + e]
+                for (k, b), w in zip(got, want):
+                    if k != 'ok' or b != w:
+                        bad = bad or ('switch now %s (another thread entered a table while it was %s): %d as %s' % (now, flag_at_entry, n, w.hex()),
+                                      b.hex() if k == 'ok' else repr(b))
+        parked.release.set()
+        th.join(10)
+    finally:
+        encode.DEPRECATED_RABBITMQ_SUPPORT = old
+    return bad
+
+
 def c11_scenarios(ctx, res):
+    for flag_ in (False, True):
+        res.case('parked thread %s' % flag_, tag='switch set while another thread encodes')
+        k, bad = catching(c11_parked_thread_case, flag_)
+        if k != 'ok' or bad:
+            res.violation('the switch as set now is not what this thread\'s integers follow', {'fn': 'c11_parked_thread_case', 'args': pyrepr((flag_,))},
+                          bad[0] if k == 'ok' else 'oracle runs', bad[1] if k == 'ok' else repr(bad))
     g = ctx.gen
     alphabet = [('on', None), ('default', None), ('off', None)] + [('refuse', k) for k in ('table', 'array', 'nested', 'key', 'top', 'value', 'deep')]
     probes = [40000, 3000000000, 200, -5, 65535, 32768, 2 ** 31, 2 ** 32 - 1]
